@@ -51,6 +51,8 @@ VP_KEYS = {
     "cosmwasm_std::Binary::new", "std::vec::Vec::into_boxed_slice", "std::hint::must_use",
     "std::string::String::into_bytes", "std::slice::<impl [T]>::iter", "std::slice::<impl [T]>::to_vec",
     "std::vec::Vec::into_iter", "std::collections::BTreeMap::iter", "std::mem::take",
+    "cosmwasm_std::CanonicalAddr::as_slice", "cosmwasm_std::Checksum::as_slice", "cosmwasm_std::HexBinary::as_slice",
+    "cosmwasm_std::HexBinary::to_vec", "cosmwasm_std::CanonicalAddr::to_vec",
 }
 VP_NAMES_ON_SLICES = {"to_vec", "iter", "as_slice", "as_str", "as_bytes", "as_ref", "into_vec", "to_owned"}
 
